@@ -365,6 +365,23 @@ fn judge_case(c: &DCase) -> Verdict {
             describe(&format!("expected recording: {} + releases of {:?}\nstored recording  : {}", fmt_items(&exp_main), still.iter().map(|k| out_name(*k)).collect::<Vec<_>>(), fmt_items(&got_all))),
         );
     }
+    // stopped by the other macro's record key: that press also started a recording of macro 1, which the
+    // stop key tapped right afterwards ended: it holds the record key's release and nothing else
+    if p.stop_kind == 3 && !p.hit_limit && !stop_while_busy && !c.sensitive {
+        let m1: Vec<(bool, u16)> = stored_items(&sim, 1).unwrap_or_default().iter().map(|(pr, k, _)| (*pr, *k)).collect();
+        // keys physically held across both recordings are released at its end
+        let mut want1: Vec<(bool, u16)> = vec![(false, code_of(K_R1))];
+        let extra: Vec<(bool, u16)> = m1.iter().skip(1).copied().collect();
+        let extra_ok = extra.iter().all(|(pr, k)| !*pr && TYPING.iter().any(|t| code_of(t) == *k));
+        if m1.first() != want1.first() || !extra_ok {
+            want1.extend(extra.iter().filter(|(pr, _)| !*pr));
+            return Verdict::failed(
+                "dynmacro:recording-started-by-the-other-record-key-differs",
+                describe(&format!("macro 1, started by the press of its record key that ended macro 0 and stopped right away, holds: {} (expected: the record key's release, then at most releases of typing keys)", fmt_items(&m1))),
+            );
+        }
+        v.classes.push("second-recording-started-by-stop-compared");
+    }
     // recorded delays: the time to the next recorded event
     for (i, ((_, _, d_exp), (_, _, d_got))) in p.recorded.iter().zip(stored.iter()).enumerate() {
         // (a macro played while recording runs its recorded delays inside single ticks)
@@ -397,6 +414,30 @@ fn judge_case(c: &DCase) -> Verdict {
     }
     if os.anything_down() {
         return Verdict::failed(if p.self_play { "dynmacro:replays-itself:key-left-down" } else { "dynmacro:key-left-down-after-replay" }, describe(&format!("replay output: {}\nstill down: {:?}", fmt_outs(&replay_outs), os.keys.iter().map(|k| out_name(*k)).collect::<Vec<_>>())));
+    }
+    // another macro played from inside the recording is replayed inline, every time: with plain mappings,
+    // macro 1 = taps of `d`, and no `d` typed in macro 0 itself, the replay presses d's output once per
+    // play of macro 1 and per `d` tap in it
+    if p.nested_play && !p.self_play && !p.hit_limit && !c.sensitive && !stop_while_busy {
+        let d = code_of("d");
+        let m1 = stored_items(&sim, 1).unwrap_or_default();
+        let m1_plays = m1.iter().any(|(_, k, _)| *k == code_of(K_P0) || *k == code_of(K_P1));
+        let d_in_0 = stored.iter().any(|(_, k, _)| *k == d);
+        if !m1_plays && !d_in_0 {
+            let m1_d = m1.iter().filter(|(pr, k, _)| *pr && *k == d).count();
+            let n_p1 = stored.iter().filter(|(pr, k, _)| *pr && *k == code_of(K_P1)).count();
+            let d_outs = [code_of("z"), code_of("3")];
+            let got = replay_outs.iter().filter(|o| matches!(o.ev, OutEv::Down(k) if d_outs.contains(&k))).count();
+            if got != m1_d * n_p1 {
+                return Verdict::failed(
+                    "dynmacro:nested-play-not-replayed-every-time",
+                    describe(&format!("macro 0 plays macro 1 {n_p1} time(s), macro 1 taps d {m1_d} time(s), but the replay pressed d's output {got} time(s)\nreplay output: {}", fmt_outs(&replay_outs))),
+                );
+            }
+            if n_p1 >= 2 && m1_d >= 1 {
+                v.classes.push("nested-macro-played-twice-counted");
+            }
+        }
     }
     if p.self_play {
         v.classes.push("plays-itself-while-recording");
@@ -481,7 +522,7 @@ impl TypedProp for C19 {
     fn info(&self) -> PropInfo {
         PropInfo {
             level: "exploration",
-            rule: "configs: record keys for two macro ids, record-stop, record-stop-truncate K (K 0-3), play keys for both ids, four typing keys with time-insensitive mappings (key, output chord, layer-while-held, multi) or time-sensitive ones (tap-hold, tap-dance, one-shot, 30 ms); dynamic-macro-max-presses 128 or 1-5; replay delay behaviour constant or recorded. Histories: optionally macro 1 recorded first (optionally with a tap of its own play key inside), optionally a typing key held across the start; record 0; 0-15 typed events (toggling presses/releases of the typing keys with gaps 1-60 ms incl. 29/30/31, taps of the play key of the macro being recorded and of the other macro); stop by record-stop, -truncate, the same or the other record key, 12 or 45 ms after the last event; release what is held; play 0. Oracles: (i) the stored recording (read from its Debug rendering) equals the physical events between start and stop in order, without the stop key's press and the truncated tail, followed by releases of exactly the keys still down (any order), with each recorded delay equal to the time to the next event; (ii) differential: a second kanata is driven through the same history and then gets the stored events typed at the ticks at which the replay injects them (every 5 ticks, or after the recorded delays) instead of the play key: the OS output sequences must be equal (trailing releases as a set); (iii) the replay ends, nothing is left down, a recording that contains its own play key does not loop, and beyond the size limit recording has ended by itself with at most 2*max+2 items that are a prefix of what was typed. Non-trivial: the recording has >= 4 items, or a play key was typed while recording. Distinct: hash of the case.".into(),
+            rule: "configs: record keys for two macro ids, record-stop, record-stop-truncate K (K 0-3), play keys for both ids, four typing keys with time-insensitive mappings (key, output chord, layer-while-held, multi) or time-sensitive ones (tap-hold, tap-dance, one-shot, 30 ms); dynamic-macro-max-presses 128 or 1-5; replay delay behaviour constant or recorded. Histories: optionally macro 1 recorded first (optionally with a tap of its own play key inside), optionally a typing key held across the start; record 0; 0-15 typed events (toggling presses/releases of the typing keys with gaps 1-60 ms incl. 29/30/31, taps of the play key of the macro being recorded and of the other macro); stop by record-stop, -truncate, the same or the other record key, 12 or 45 ms after the last event; release what is held; play 0. Oracles: (i) the stored recording (read from its Debug rendering) equals the physical events between start and stop in order, without the stop key's press and the truncated tail, followed by releases of exactly the keys still down (any order), with each recorded delay equal to the time to the next event; when the other macro's record key ended the recording, the recording that press started (and the stop key ended right away) holds that key's release and nothing typed; (ii) differential: a second kanata is driven through the same history and then gets the stored events typed at the ticks at which the replay injects them (every 5 ticks, or after the recorded delays) instead of the play key: the OS output sequences must be equal (trailing releases as a set); with plain mappings a macro played from inside the recording is replayed inline every time (the replay presses its key's output once per play); (iii) the replay ends, nothing is left down, a recording that contains its own play key does not loop, and beyond the size limit recording has ended by itself with at most 2*max+2 items that are a prefix of what was typed. Non-trivial: the recording has >= 4 items, or a play key was typed while recording. Distinct: hash of the case.".into(),
             assumptions: vec!["with play keys inside the recording only (i) and (iii) are checked: typing a play key starts an asynchronous replay, replaying it inlines the other macro".into()],
             extra: BTreeMap::new(),
         }
@@ -494,7 +535,7 @@ impl TypedProp for C19 {
             },
             exhaustive: false,
             distinct_by_construction: false,
-            required_classes: vec!["delay:constant", "delay:recorded", "replay-compared-with-typing", "size-limit-hit", "plays-itself-while-recording", "plays-other-macro-while-recording", "nested-macro-contains-its-own-play-key", "stop:truncate", "stop:same-record-key", "stop:other-record-key", "key-held-across-start", "key-held-across-stop", "time-sensitive-mapping"],
+            required_classes: vec!["delay:constant", "delay:recorded", "replay-compared-with-typing", "size-limit-hit", "plays-itself-while-recording", "plays-other-macro-while-recording", "nested-macro-contains-its-own-play-key", "stop:truncate", "stop:same-record-key", "stop:other-record-key", "second-recording-started-by-stop-compared", "nested-macro-played-twice-counted", "key-held-across-start", "key-held-across-stop", "time-sensitive-mapping"],
             hang_secs: 60,
         }
     }
